@@ -1,8 +1,8 @@
 /-!
 Model of `pubsub/message_buffer.go` + `pubsub/messages.go` (canoto `BatchMessage`), property
-C32, **with the repair of `/verif/fixes/C32-batch-framing-overhead.patch`** (`Send` accounts
+C32, **with the repair of `/verif/fixes/C32-batch-framing-overhead.patch`** (/repo ae6ebd9) (`Send` accounts
 for the per-message framing: `l := batchEntrySize(msg)` instead of `len(msg)`) and of
-`/verif/fixes/C32-close-deadlock-with-timer.patch` (`Close` stops the timer after releasing
+`/verif/fixes/C32-close-deadlock-with-timer.patch` (/repo 9e4a691) (`Close` stops the timer after releasing
 the mutex; before, `Close` could deadlock with a running timer callback, so that "each
 locked region is one atomic step that always completes" was false).
 Core Lean only.  Bytes are `Nat`s; messages and batches are byte lists.
